@@ -15,14 +15,14 @@ pub const INFO: PropInfo = PropInfo {
     quick_runs: 40_000,
     thorough_runs: 1_000_000,
     rule: "each run = one BasicAuth configuration (a single pair or an array of 1..5 pairs; Unicode, colons inside passwords, empty parts, pairs that are prefixes of each other; at the root, on a mount or local to a handler) \
-           and 2..10 requests on a keep-alive connection with generated Authorization values (each correct one, user of pair i with password of pair j, prefix/suffix variants, other schemes, invalid base64, base64 of non-UTF-8 bytes with the invalid byte first/middle/last, missing header); \
+           and 2..10 requests on a keep-alive connection with generated Authorization values (each correct one, user of pair i with password of pair j, prefix/suffix variants, other schemes, invalid base64, the right credentials with dropped / partial / surplus padding, base64 of non-UTF-8 bytes with the invalid byte first/middle/last, missing header); \
            non-trivial = at least one request admitted and one refused; distinct = distinct hash of (configuration, requests)",
     state_measure: "(credential kind, verdict) combinations",
     assumptions: &[
         "user names contain no colon (RFC 7617)",
-        "another letter case of the scheme name (`basic`) and base64 without padding are grey: checked only in the direction 'if the handler ran, the credentials are a configured pair'",
+        "another letter case of the scheme name (`basic`) is grey: checked only in the direction 'if the handler ran, the credentials are a configured pair'",
     ],
-    expected_probes: &["c13.correct_admitted", "c13.mixed_pair_refused", "c13.non_utf8_last_byte", "c13.non_utf8_refused", "c13.missing_header_refused", "c13.colon_in_password", "c13.correct_then_missing_same_connection", "c13.array_config"],
+    expected_probes: &["c13.correct_admitted", "c13.mixed_pair_refused", "c13.non_utf8_last_byte", "c13.non_utf8_refused", "c13.missing_header_refused", "c13.colon_in_password", "c13.correct_then_missing_same_connection", "c13.array_config", "c13.padding_variant_refused"],
 };
 
 #[derive(Clone, Debug, Serialize, Deserialize)]
@@ -121,7 +121,18 @@ pub fn generate(_cfg: &RunCfg, _out: &mut Outcome) -> Scenario {
                 ("other-scheme", Some(t::pick(&[format!("Bearer {e}"), format!("basic {e}"), format!("Basic  {e}"), format!("Basic{e}"), e.clone(), format!("Digest {e}")]).into_bytes()))
             }
             4 => ("invalid-base64", Some(format!("Basic {}", t::pick(&["!!!!", "a", "ab=c", "YQ", "YWJj*", "====", ""])).into_bytes())),
-            5 => ("no-padding", Some(format!("Basic {}", STANDARD_NO_PAD.encode(&good)).into_bytes())),
+            5 => {
+                // the base64 of a string is ONE string: the same credentials with their padding dropped, halved or multiplied are another value
+                let canon = STANDARD.encode(&good);
+                let bare = STANDARD_NO_PAD.encode(&good);
+                let v = match t::draw(4) {
+                    0 => bare,
+                    1 => format!("{bare}="),
+                    2 => format!("{canon}{}", "=".repeat(1 + t::draw(4) as usize)),
+                    _ => format!("{bare}{}", "=".repeat(t::draw(6) as usize)),
+                };
+                ("padding-variant", Some(format!("Basic {v}").into_bytes()))
+            }
             6 => {
                 // base64 of bytes that are not UTF-8: invalid byte first / middle / last
                 let mut raw = good.clone().into_bytes();
@@ -264,7 +275,10 @@ fn execute(sc: &Scenario, out: &mut Outcome) {
         let ran = resp.header("X-Secret").is_some();
         let should = judge(&sc.pairs, r.authorization.as_deref());
         out.states.push(format!("{}|{}", r.kind, if should { "admit" } else { "refuse" }));
-        let grey = r.kind == "no-padding" || (r.kind == "other-scheme" && r.authorization.as_deref().map(|a| a.to_ascii_lowercase().starts_with(b"basic ")).unwrap_or(false));
+        let grey = (r.kind == "other-scheme" && r.authorization.as_deref().map(|a| a.to_ascii_lowercase().starts_with(b"basic ")).unwrap_or(false));
+        if r.kind == "padding-variant" && !should {
+            out.probe("c13.padding_variant_refused");
+        }
         match (should, ran) {
             (true, true) => {
                 admitted += 1;
